@@ -292,6 +292,14 @@ func (m *BigMap) Set(key, value Object) Map {
 	return m
 }
 
+// CloneMap returns a map that shares no storage with m (a small map is a value already).
+func CloneMap(m Map) Map {
+	if bm, ok := m.(*BigMap); ok {
+		return &BigMap{kv: slices.Clone(bm.kv)}
+	}
+	return m
+}
+
 func (m *BigMap) Len() int {
 	return len(m.kv)
 }
